@@ -110,8 +110,13 @@ static void ob_fill(H<T>& h, bool two_d)
             if (bin.finite_calls() != 0)
                 where = where && h.le(xmin + T(static_cast<double>(s) - 1.0) * sx, xs[0]) && h.lt(xs[0], xmin + T(static_cast<double>(s) + 2.0) * sx);
         }
+        // within one rounding error of the upper end of the range the value may land in the last bin or outside (the property's
+        // edge tolerance applied to the outer edge: bin_size is a rounded quotient)
+        T const eps4 = T(4.0) * std::numeric_limits<T>::epsilon();
         bool const inside = (xmin <= xs[0]) && (xs[0] < xmax);
-        h.check("C11|bitprecise.exactly_one_bin_inside_the_range_none_outside", h.truth(hits == (inside ? 1u : 0u)));
+        bool const clearly_inside = inside && (xs[0] < xmax - (xmax - xmin) * eps4);
+        h.check("C11|bitprecise.exactly_one_bin_inside_the_range_none_outside",
+            h.truth(clearly_inside ? hits == 1u : (inside ? hits <= 1u : hits == 0u)));
         h.check("C11|bitprecise.hit_bin_is_the_bin_of_the_coordinate_or_its_neighbour", where);
         return;
     }
